@@ -262,7 +262,7 @@ PROPS = {
                 theorems=['Esc.P.C17_increase', 'Esc.P.C17_reject', 'Esc.P.C17_never_lowers', 'Esc.P.C17_attach_partition', 'Esc.P.C17_batch_limits',
                           'Esc.P.mkFleetReq_ok', 'Esc.P.C17_scan_never_lowers'],
                 technique='Lean 4 theorem over the model of aws.NodeGroup.IncreaseSize (all deltas, bounds, fleet sizes, environments; batch constants regenerated from source) + differential correspondence on full AWS call arguments + monitor',
-                level_text='C17_scan_never_lowers: every SetDesiredCapacity in the journal of ScaleUp asks for strictly more than the desired size the provider holds for the group at that moment (the implementation-side oracle loweringRequests is its negation, judged against the cloud's own description). C17_increase: rejected requests make no call; otherwise exactly SetDesiredCapacity(current+d), or in fleet mode at most one CreateFleet for exactly d (min target d, instant, '
+                level_text='C17_scan_never_lowers: every SetDesiredCapacity in the journal of ScaleUp asks for strictly more than the desired size the provider holds for the group at that moment (the implementation-side oracle loweringRequests is its negation, judged against the description the cloud itself gives). C17_increase: rejected requests make no call; otherwise exactly SetDesiredCapacity(current+d), or in fleet mode at most one CreateFleet for exactly d (min target d, instant, '
                            'configured template, default on-demand, overrides from the configured types) and never a SetDesiredCapacity; C17_attach_partition: attach calls carry consecutive batches of the acquired ids, '
                            '<= batchSize each, only the last shorter; C17_batch_limits ties batchSize<=20 / terminateBatchSize<=1000 to the constants extracted from aws.go; C17_never_lowers. '
                            'Tie: awsops/fleetops streams run the real provider over the simulated AWS; full call arguments compared; predicates monitored on observed journals.',
